@@ -9,7 +9,7 @@ from sim.ctx import RunCtx, make_scheduler, gen_sched
 from sim import shrink as shr
 
 PROP = 'C04'
-QUICK_RUNS = 8000
+QUICK_RUNS = 60000
 THOROUGH_RUNS = 150000
 QUICK_WALL = 110
 THOROUGH_WALL = 1500
@@ -31,8 +31,8 @@ def preload():
 
 def gen_case(rng, tier, idx):
     spec = gen_mdp_spec(rng, proper=True, discounts=(0.5, 0.9, 0.95, 1.0, 1.0),
-                        rewards=rng.choice((None, None, (-2.0, -1.0, -1.0, 0.0, 1.0, 0.5))))
-    cfg = dict(heur=gen_heuristic(rng), eps=rng.choice((1e-2, 1e-3, 1e-5)), rao=rng.random() < 0.5, seed=rng.choice((0, 1, 9)))
+                        rewards=rng.choice((None, None, (-2.0, -1.0, -1.0, 0.0, 1.0, 0.5), (-1.0, -2.0, -1.0, -3.0), (0.0, -1.0))))
+    cfg = dict(heur=gen_heuristic(rng), eps=rng.choice((1e-2, 1e-3, 1e-5)), rao=rng.random() < 0.6, seed=rng.choice((0, 1, 9)))
     plain = idx % 4 == 0
     sched = gen_sched(rng, ('P',) if plain else ('P', 'U', 'R', 'R'), budget_choices=(20, 100, 400, 2000), cap=300000)
     return dict(spec=spec, cfg=cfg, sched=sched)
